@@ -170,6 +170,20 @@ func c18Values() []c18Value {
 		}
 	}
 	{
+		// an EncryptedLeaseSet whose inner data really is a ciphertext for the key pair X25519Pair(1):
+		// DecryptInnerData is a query too (right key: succeeds; wrong key: fails) and must leave the value alone
+		ls := gen.LeaseSet2(choose.Run(nil, func(*choose.Ctx) {}))
+		if plain, rem, err := lease_set2.ReadLeaseSet2(ls.Bytes); err == nil && len(rem) == 0 {
+			pub, _ := adapt.X25519Pair(1)
+			var cookie [32]byte
+			if ct, err := encrypted_leaseset.EncryptInnerLeaseSet2(&plain, cookie, pub); err == nil {
+				wire := refmodel.EncryptedLeaseSet{SigType: 11, Blinded: gen.Key(11, 77).Pub, Published: gen.Published, Expires: 600, Inner: ct, Sig: make([]byte, 64)}.Bytes()
+				v, _, err := encrypted_leaseset.ReadEncryptedLeaseSet(wire)
+				add("EncryptedLeaseSet(parsed, decryptable)", &v, err)
+			}
+		}
+	}
+	{
 		os_, dt := gen.OfflineAlone(choose.Run(nil, func(*choose.Ctx) {}))
 		v, _, err := offline_signature.ReadOfflineSignature(os_.Bytes, uint16(dt))
 		add("OfflineSignature(parsed)", &v, err)
@@ -248,6 +262,21 @@ func c18Ops(val c18Value) []c18Op {
 		if m.Type.NumIn() == 1 {
 			fn := rv.Method(i)
 			ops = append(ops, c18Op{m.Name, func() string { return renderOuts(fn.Call(nil)) }})
+			continue
+		}
+		if m.Name == "DecryptInnerData" && m.Type.NumIn() == 3 {
+			fn := rv.Method(i)
+			cookie := make([]byte, 32)
+			for _, kk := range []struct {
+				kn   string
+				seed uint64
+			}{{"right key", 1}, {"wrong key", 11}} {
+				kn := kk.kn
+				_, priv := adapt.X25519Pair(kk.seed)
+				ops = append(ops, c18Op{m.Name + "(" + kn + ")", func() string {
+					return renderOuts(fn.Call([]reflect.Value{reflect.ValueOf(cookie), reflect.ValueOf(priv)}))
+				}})
+			}
 			continue
 		}
 		// one-argument methods taking the same type (Equals/Equal) or an I2PString key
